@@ -231,6 +231,11 @@ fn vec_entry<T: 'static>(entry: usize, n: usize, pre: usize) -> Outcome {
             if !ok {
                 return None;
             }
+            if entry != 11 && v.len().checked_add(n).is_none() {
+                // len + additional is not representable: no vector can ever hold that many elements
+                let _u = ledger::enter_user();
+                panic!("VIOLATION:accepted a request for len {} + {n} more elements of {size} bytes: that element count does not fit in usize", v.len());
+            }
             if v.capacity() < v.len().saturating_add(if entry == 11 { 0 } else { n }) && entry != 11 {
                 return Some((v.as_ptr() as usize, usize::MAX));
             }
